@@ -136,7 +136,10 @@ fn replay(path: &PathBuf) -> i32 {
             ctx.known_keys = all.iter().filter(|k| k.is_known && k.property == prop).map(|k| k.key.clone()).collect();
             ctx.panic_only = prop == "C15";
             ctx.cycles_only = prop == "C20";
-            if let Some(seq) = v["case"]["sequence"].as_array() {
+            if v["case"]["regen"]["oracle"] == "c05-nesting" {
+                // re-create the generated program and run it with the unit's own oracles (call stack, marker log)
+                super::props::flow::replay_nesting(&mut ctx, &v["case"]["regen"]);
+            } else if let Some(seq) = v["case"]["sequence"].as_array() {
                 // a recorded history: replay exactly the same actions in lock step with the reference
                 let acts: Vec<super::e1::Act> = seq
                     .iter()
